@@ -4,7 +4,8 @@ import os, sys, json, time, re, fnmatch, hashlib, collections
 from . import driver, core
 
 _PROG = {}
-MAX_REPLAYS = 6
+MAX_REPLAYS = 16
+MAX_PER_MSG = 2
 
 def get_prog(path):
     p = _PROG.get(path)
@@ -93,6 +94,7 @@ def run_check(prop, cases, tier, seed, level='model_checking', functions=(), bou
     n_viol = 0
     replays = 0
     unreplayed = 0
+    per_msg = {}
     broken = []
     seen_known = set()
     for res in results:
@@ -114,7 +116,9 @@ def run_check(prop, cases, tier, seed, level='model_checking', functions=(), bou
                 inconc.append('%s: violation without model: %s' % (res['case'], msg))
                 continue
             k0 = match_known(known, prop, res['case'], msg)
-            if replays >= MAX_REPLAYS and (n_viol > 0 or (k0 and k0['id'] in seen_known)):
+            msgkey = (kind, msg)
+            per_msg[msgkey] = per_msg.get(msgkey, 0) + 1
+            if per_msg[msgkey] > MAX_PER_MSG or replays >= MAX_REPLAYS:
                 unreplayed += 1
                 continue
             d = driver.write_replay(prop, re.sub(r'[^A-Za-z0-9_.-]', '_', res['case'] + '_' + hashlib.md5(msg.encode()).hexdigest()[:6]),
@@ -136,6 +140,8 @@ def run_check(prop, cases, tier, seed, level='model_checking', functions=(), bou
                 inconc.append('%s: ENGINE-MISMATCH: model does not replay natively: %s (see %s)' % (res['case'], msg, d))
         if res.get('fn') and res['reached'] == 0 and not res['violations'] and next(c for c in cases if c.name == res['case']).expect_reach:
             broken.append('%s: vacuous: no path reached an assertion/reach label (%s)' % (res['case'], res['status']))
+    for (kind, msg), cnt in per_msg.items():
+        print('  violation class: %dx %s: %s' % (cnt, kind, msg))
     for l in known_lines:
         print(l)
     for l in inconc:
